@@ -86,6 +86,8 @@ class QuoteKernel(Stream):
         [{"op": "quote", "safe": hs(sf), "s": hs(s)} for sf in ["", "/", "%!$&'()*+,/:;=@", "é%"] for s in ["", "a b", "é", "%41", "%", "a/b?c#d", "\x00\x7f\x80", "~_.-", "😀", "%zz"]]
         + [{"op": "unquote", "s": hs(s)} for s in ["", "abc", "%41", "%4", "%", "%%41", "%4%41", "%zz", "%C3%A9", "%c3%a9", "%C3", "%E2%82", "%E2%82%AC", "%F0%9F%98", "%FF%FE", "%ED%A0%80", "%F4%90%80%80", "%C0%AF", "é%C3", "%C3é%A9", "%E2%82a", "%F0%9F%98%80x", "a%00b", "%25", "%2541", "%C3%28", "%E2%28%A1", "%80%80", "%F0%80%80%80", "%E0%80%80", "%E0%A0%80", "%F4%8F%BF%BF"]]
         + [{"op": "part", "which": w, "s": hs(s)} for w in ("path", "query", "fragment", "user") for s in ["", "%2F", "%2f", "%41%2F%42", "%20%25%7F%00", "%26%3D%2B%23", "%3A%40", "%E2%20%82%AC", "%%34%31", "%2%35", "a%2Fb%C3%A9%FF", "%3F%23", "%C3%2F%A9", "%2F%2F", "x%2", "%2Fé%2F"]]
+        + [{"op": "unquoter", "s": hs(s)} for s in ["", "%41", "%C3%A9", "%C3", "%E2%82", "%FF%FE", "%ED%A0%80", "%F0%9F%98", "é%C3", "%E2%82a", "%F4%90%80%80", "%C0%AF"]]
+        + [{"op": "envpath", "s": hs(s)} for s in ["/", "/é/日本", "/a b", "/%41", "/%zz", "/%FF", "/a%2Fb", "/😀/\x7f\xa0", "//x", "x", ""]]
         + [{"op": "dance", "s": hs(s)} for s in ["", "/é", "/日本/😀", "\x80\xff", "ÿ", "\U0010ffff", "a%20b"]]
         + [{"op": "undance", "s": hs(s)} for s in ["", "/Ã©", "\xff", "\xc3", "\xe2\x82", "é", "Ā", "\xe6\x97\xa5"]]
     )
@@ -96,8 +98,12 @@ class QuoteKernel(Stream):
             r = rng.random()
             if r < 0.2:
                 yield {"op": "quote", "safe": hs(rng.choice(safes)), "s": hs(rand_text(rng, malformed=0.05))}
-            elif r < 0.5:
+            elif r < 0.4:
                 yield {"op": "unquote", "s": hs(rand_text(rng, malformed=0.08))}
+            elif r < 0.47:
+                yield {"op": "unquoter", "s": hs(rand_text(rng, malformed=0.08))}
+            elif r < 0.54:
+                yield {"op": "envpath", "s": hs("/" + rand_text(rng, ["/", "/", "."], malformed=0.05).replace("?", "").replace("#", "").replace("\\", ""))}
             elif r < 0.85:
                 yield {"op": "part", "which": rng.choice(["path", "query", "fragment", "user"]), "s": hs(rand_text(rng, malformed=0.08))}
             elif r < 0.93:
@@ -115,6 +121,18 @@ class QuoteKernel(Stream):
             return hs(quote(s, safe=unhs(case["safe"])))
         if op == "unquote":
             return hs(unquote(s, "utf-8", "werkzeug.url_quote"))
+        if op == "unquoter":
+            return hs(unquote(s))
+        if op == "envpath":
+            from werkzeug.test import EnvironBuilder
+            from werkzeug.wrappers import Request
+
+            b = EnvironBuilder(path=s)
+            try:
+                env = b.get_environ()
+                return hs(env["PATH_INFO"]) + "," + hs(Request(env).path)
+            finally:
+                b.close()
         if op == "part":
             return hs(getattr(urls, "_unquote_" + case["which"])(s))
         if op == "dance":
@@ -127,6 +145,11 @@ class QuoteKernel(Stream):
             return line("quote", case["safe"], case["s"])
         if op == "unquote":
             return line("unquote", case["s"])
+        if op == "unquoter":
+            return line("unquoter", case["s"])
+        if op == "envpath":
+            # urlsplit is opaque: the model gets the path component urlsplit yields
+            return line("envpath", hs(urlsplit(unhs(case["s"])).path))
         if op == "part":
             return line("unquotepart", case["which"], case["s"])
         if op == "dance":
@@ -139,7 +162,11 @@ class QuoteKernel(Stream):
         if case["op"] == "dance":
             if real_out.startswith("EXC"):
                 return f"_wsgi_encoding_dance raised {real_out}"
-            if _wsgi_decoding_dance(unhs(real_out)) != unhs(case["s"]):
+            try:
+                back = _wsgi_decoding_dance(unhs(real_out))
+            except Exception as e:  # noqa: BLE001
+                return f"_wsgi_decoding_dance raised {type(e).__name__} on the output of _wsgi_encoding_dance"
+            if back != unhs(case["s"]):
                 return "latin-1 dance is not lossless"
         return None
 
@@ -280,8 +307,12 @@ class IriUri(Stream):
             return f"iri_to_uri raised {type(e).__name__}"
         if not u1.isascii():
             return f"iri_to_uri result is not ASCII: {u1!r}"
-        if iri_to_uri(u1) != u1:
-            return f"iri_to_uri not idempotent: {u1!r} -> {iri_to_uri(u1)!r}"
+        try:
+            u2 = iri_to_uri(u1)
+        except Exception as e:  # noqa: BLE001
+            return f"iri_to_uri raised {type(e).__name__} on its own output {u1!r}"
+        if u2 != u1:
+            return f"iri_to_uri not idempotent: {u1!r} -> {u2!r}"
         try:
             i1 = uri_to_iri(url)
         except Exception as e:  # noqa: BLE001
@@ -397,6 +428,8 @@ class EnvironRoundtrip(Stream):
         while n < limit:
             n += 1
             segs = [rand_clean(rng, CLEAN, 0, 4) for _ in range(rng.randrange(1, 4))]
+            if rng.random() < 0.01:
+                segs.append(rng.choice(["a\tb", "\n", "x\r"]))  # known finding F15c
             path = "/" + "/".join(segs)
             if path.startswith("//"):
                 path = "/x" + path[1:]
@@ -453,6 +486,14 @@ class EnvironRoundtrip(Stream):
             return f"Request.url path {sp.path!r} does not denote {root + path!r}"
         if parse_qsl(sp.query, keep_blank_values=True, errors="strict") != items:
             return f"Request.url query {sp.query!r} does not denote {items!r}"
+        return None
+
+    def finding_key(self, case, what):
+        path = unhs(case["path"])
+        if what.startswith("Request.path ") and any(c in path for c in "\t\r\n"):
+            got = unhs(self.real(case).split("|")[0])
+            if got == path.replace("\t", "").replace("\r", "").replace("\n", ""):
+                return "F15c"
         return None
 
     def bucket(self, case, real_out):
@@ -575,7 +616,7 @@ CHECK = Check(
         "urllib.parse.urlsplit / urlunsplit (incl. tab/CR/LF and leading C0/space stripping, port validation, scheme lower-casing) and the IDNA codec are opaque: the harness splits with urllib, applies the IDNA step with the same calls the code makes, and hands components to the model; hosts that IDNA rejects and ports urlsplit rejects are outside the URL grammar",
         "urllib.parse.quote / unquote and bytes.decode with werkzeug's codec error handler are hand-modelled from CPython 3.12 (maximal-subpart error spans) and validated by stream quote-kernel, not verified",
         "the one-step fixpoint claims are checked for URLs whose every '%' starts a two-hex-digit escape (the property's '%XX' grammar); a bare '%' is only compared against the model",
-        "environ-roundtrip is stated for paths starting with one '/', without '%', '?', '#' (URL syntax for EnvironBuilder's path argument) and without tab/CR/LF (removed by urlsplit); queries are arbitrary str mappings without lone surrogates; it is an oracle-only stream (EnvironBuilder, Request are not modelled beyond the dances and the safe sets)",
+        "environ-roundtrip is stated for paths starting with one '/', without '%', '?', '#' (URL syntax for EnvironBuilder's path argument: these are interpreted, not transported); tab/CR/LF in the path are removed by urlsplit inside EnvironBuilder (known finding F15c); queries are arbitrary str mappings without lone surrogates; it is an oracle-only stream (EnvironBuilder, Request are not modelled beyond the dances and the safe sets)",
         "DispatcherMiddleware is modelled on the raw environ strings (it compares mount keys with PATH_INFO as is)",
     ],
     trusted_extra=["CPython urllib.parse / codecs (utf-8, latin-1, idna) semantics for the modelled or opaque primitives (validated by the streams where modelled, not verified)"],
@@ -584,8 +625,8 @@ CHECK = Check(
 )
 
 MANIFEST = {
-    "level_text": "Machine-checked Lean 4 theorems about an executable model of urllib quote/unquote with werkzeug's error handler, iri_to_uri / uri_to_iri on split components, the latin-1 dances and DispatcherMiddleware's mount loop: quote output is ASCII for every input and idempotent for every safe set iri_to_uri uses (decide on the literals collected from the AST on every run), hence iri_to_uri is ASCII and idempotent component-wise; the dance round trip is lossless for every string; the dispatcher preserves SCRIPT_NAME+PATH_INFO and picks the longest '/'-boundary mount. Tied to the code by differential streams; the uri_to_iri fixpoints and the EnvironBuilder/Request round trip are validated by oracle streams only.",
-    "level_note": "Trusted: Lean kernel; extract.py; the correspondence harness; CPython urllib/codecs for modelled primitives. urlsplit/urlunsplit and IDNA are opaque. uri_to_iri fixpoint theorems are OPEN (stream-checked only).",
+    "level_text": "Machine-checked Lean 4 theorems about an executable model of urllib quote/unquote with werkzeug's error handler, iri_to_uri / uri_to_iri on split components, the latin-1 dances and DispatcherMiddleware's mount loop: quote output is ASCII for every input and idempotent for every safe set iri_to_uri uses (decide on the literals collected from the AST on every run), hence iri_to_uri is ASCII and idempotent component-wise; the dance round trip is lossless for every string; uri_to_iri is a fixpoint after one step on every component whose '%' all start '%XX' escapes (UTF-8 decoder with CPython's error spans modelled; keep tables evaluated from the live patterns); the dispatcher preserves SCRIPT_NAME+PATH_INFO and picks the longest '/'-boundary mount. Tied to the code by differential streams; the stability of IRI->URI->IRI and the EnvironBuilder/Request round trip are validated by oracle streams only.",
+    "level_note": "Trusted: Lean kernel; extract.py; the correspondence harness; CPython urllib/codecs for modelled primitives. urlsplit/urlunsplit and IDNA are opaque. IRI->URI->IRI stability (iri_uri_iri) is OPEN (stream-checked only). Known findings F15a (malformed xn-- label crashes uri_to_iri), F15b (%5B/%5D unquoted in userinfo), F15c (EnvironBuilder drops TAB/CR/LF from the path).",
     "technique": "Lean 4 proof (induction over byte lists, decide over AST-collected literals and regenerated keep tables, loop invariant for the dispatcher) + model/code correspondence + property oracles",
     "design_ref": "DESIGN.md section 4, C15",
 }
